@@ -466,7 +466,7 @@ impl Property for C02 {
         serde_json::from_value::<GitScenario>(v.clone()).map(|s| shrink_ops(&s)).unwrap_or_default()
     }
     fn rule(&self) -> String {
-        "seeded histories of 5-16 (thorough 8-25) operations on a real git repository: create / edit to fresh content / delete / move (git mv or mv, with or without an edit) / stage / stage all / unstage / commit (staged or -a) / write an ignored file / checkpoint update (HEAD or --id of any earlier commit, with or without --pending) / analyze --changes with no range, --begin, or --begin and --end; names with spaces, non-ASCII, double quote, backslash, tab, 200-byte names. Oracle: in-memory repository model, cross-checked against raw git (disagreement discards the scenario), minus the pending entries whose recorded checksum equals the current SHA-256; set equality, verbatim paths, sorted. Non-trivial = history has a move, a delete, a name git would quote, an --id older than HEAD or a non-empty pending map, and two analyses with different expected sets; distinct = the operation list".into()
+        "seeded histories of 5-16 (thorough 8-25) operations on a real git repository: create / edit to fresh content / delete / move (git mv or mv, with or without an edit) / stage / stage all / unstage / commit (staged or -a) / write an ignored file / checkpoint update (HEAD or --id of any earlier commit, with or without --pending) / analyze --changes with no range, --begin, or --begin and --end; names with spaces, non-ASCII, double quote, backslash, tab, 200-byte names. Oracle: in-memory repository model, cross-checked against raw git (disagreement discards the scenario), minus the pending entries whose recorded checksum equals the current SHA-256; set equality, verbatim paths, sorted. Rounds 11-12: one commit in five is `git commit --amend` (the checkpoint's commit may stop being an ancestor of HEAD); one plain edit in twelve keeps the file's size and modification time while git's stat cache knows the old timestamp; one history in three runs monorail under wrong and jumping wall clocks. Non-trivial = history has a move, a delete, a name git would quote, an --id older than HEAD or a non-empty pending map, and two analyses with different expected sets; distinct = the operation list".into()
     }
     fn components(&self) -> Value {
         components()
@@ -842,7 +842,7 @@ impl Property for C07 {
         outv
     }
     fn rule(&self) -> String {
-        "plain configurations (2-4 disjoint targets, optionally one outside directory used by a target) x 1-4 phases, each: 1-8 dirtying operations (create, edit, delete, git mv / mv, stage, stage all, unstage, commit, ignored files; names with spaces, non-ASCII, quote, backslash, tab) -> checkpoint update -p -> assert analyze reports nothing and a run starts no process -> 1-4 edits (creation, change to never-seen content, deletion of a committed file) -> assert analyze --changes lists exactly the edited paths and exactly their targets; the next phase's update must clear them again. Non-trivial = the state at an update had >= 2 kinds of dirt and a later edit re-flagged; distinct = the operation lists".into()
+        "plain configurations (2-4 disjoint targets, optionally one outside directory used by a target) x 1-4 phases, each: 1-8 dirtying operations (create, edit, delete, git mv / mv, stage, stage all, unstage, commit, ignored files; names with spaces, non-ASCII, quote, backslash, tab) -> checkpoint update -p -> assert analyze reports nothing and a run starts no process -> 1-4 edits (creation, change to never-seen content, deletion of a committed file) -> assert analyze --changes lists exactly the edited paths and exactly their targets; the next phase's update must clear them again. Rounds 11-12: amended commits, same-size/same-mtime edits, wrong and jumping wall clocks as in C02; a file deleted after the update was, one time in three, emptied just before it (empty and missing are different states). Non-trivial = the state at an update had >= 2 kinds of dirt and a later edit re-flagged; distinct = the operation lists".into()
     }
     fn components(&self) -> Value {
         components()
@@ -1285,7 +1285,7 @@ impl Property for C19 {
         serde_json::from_value::<GitScenario>(v.clone()).map(|s| shrink_ops(&s)).unwrap_or_default()
     }
     fn rule(&self) -> String {
-        "histories of 8-30 operations from {commit, create file, checkpoint update (no id / --id of any commit / --id arbitrary string, with or without --pending), checkpoint show, checkpoint delete, out delete --all, analyze, run}; register model: show = stdout of the last successful update, update without --id records `git rev-parse HEAD`, after delete / out delete: show fails, analyze reports checkpointed=false and every configured target, run starts a process for every target. Non-trivial = >= 2 updates with different ids and a delete followed by an update; distinct = the operation list".into()
+        "histories of 8-30 operations from {commit, create file, checkpoint update (no id / --id of any commit / --id arbitrary string, with or without --pending), checkpoint show, checkpoint delete, out delete --all, analyze, run}; register model: show = stdout of the last successful update, update without --id records `git rev-parse HEAD`, after delete / out delete: show fails, analyze reports checkpointed=false and every configured target, run starts a process for every target. Rounds 11-12: amended commits, same-size/same-mtime edits and wrong or jumping wall clocks as in C02; one history in twenty records 1500-2400 identical empty files as pending (a document that compresses extremely well); one `update --pending` in three is followed by an edit of a file it recorded, a run and a show (a run never rewrites the checkpoint); one `out delete --all` in four meets removals that fail below <out>/tracking (failing loudly is tolerated and the old value must survive; exit 0 means the checkpoint is gone). Non-trivial = >= 2 updates with different ids and a delete followed by an update; distinct = the operation list".into()
     }
     fn components(&self) -> Value {
         components()
